@@ -101,6 +101,9 @@ def classify(tr: dict, reached: int) -> dict:
         sibling = bool(surplus) and surplus <= multi
         return {"check": "arg_combinations", "clause": "listed-combination-not-a-valid-cut",
                 **features(tr["desc"], e["out"], e["kw"]), "contains_unused_sibling_output": sibling}
+    if e["e"] == "construct-error":
+        return {"check": "construction", "clause": "valid-description-refused", "cls": e["cls"],
+                "has_dataclass": any(f.get("dataclass") for f in tr["desc"]["funcs"])}
     b = next(x for x in reversed(evs[:reached]) if x["e"] == "begin")
     return {"check": "call-history", "event": e["e"], "cls": e["cls"], "mode": b["mode"],
             **features(tr["desc"], b["out"], b["kw"])}
@@ -159,6 +162,10 @@ def validate(ctx: Ctx, traces: list[dict], name: str) -> None:
                                "which the specification does not accept as a valid cut",
                           {"desc": tr["desc"], "out": evs[reached - 1]["out"], "listed": [n for n, _ in evs[reached - 1]["kw"]]})
             continue
+        if evs[reached - 1]["e"] == "construct-error":
+            ctx.violation(sig, f"a valid description was refused at construction: {evs[reached-1]['cls']} {evs[reached-1]['val']['f'][:160]}",
+                          {"desc": tr["desc"], "order": tr.get("order"), "events": evs[:1]})
+            continue
         bi = max(k for k in range(reached) if evs[k]["e"] == "begin")
         ctx.violation(sig, f"pipeline call not explained by PipelineCall.tla at event {reached}: {evs[reached-1]}",
                       {"desc": tr["desc"], "call": evs[bi], "events": evs[bi:reached + 1]})
@@ -197,6 +204,7 @@ def random_desc(rng: random.Random, nf: int, picker: bool = False, hook: bool = 
                       # caller never renames outputs afterwards (a user's picker cannot follow a rename either)
                       "picker": picker and len(outs) > 1 and rng.random() < 0.35,
                       "hook": hook and rng.random() < 0.3,     # post_execution_hook: an event of its own after the call
+                      "dataclass": picker and len(outs) == 1 and rng.random() < 0.2,   # a dataclass as the pipeline function
                       "renamed": [p for p in params if rng.random() < 0.3]})   # underlying argument named differently
         avail += outs
     # consistent defaults: one default value per name (already by construction)
@@ -208,8 +216,13 @@ def random_history(rng: random.Random, tdesc: dict) -> dict:
     order = list(range(len(pdesc["funcs"])))
     rng.shuffle(order)
     import contextlib, io
-    with contextlib.redirect_stdout(io.StringIO()):
-        pl = build.make_pipeline({"funcs": [pdesc["funcs"][i] for i in order]})
+    try:
+        with contextlib.redirect_stdout(io.StringIO()):
+            pl = build.make_pipeline({"funcs": [pdesc["funcs"][i] for i in order]})
+    except Exception as ex:  # noqa: BLE001  the descriptions are valid by construction: a refusal is an event no action explains
+        from ..terms import Term, to_json
+        return {"desc": {"funcs": [tdesc["funcs"][i] for i in order]}, "order": order,
+                "ev": [pcall.ev(e="construct-error", cls=type(ex).__name__, val=to_json(Term("#msg:" + str(ex)[:200])))]}
     outs = [o for f in pdesc["funcs"] for o in f["outputs"]]
     evs: list[dict] = []
     for o in outs:                      # every listed combination of every output must be a valid cut (TLC decides)
